@@ -40,6 +40,32 @@ theorem move_keeps_content (fs : FS) (src dst : String) (c : Nat) (h : FS.get fs
   rw [h]
   simp [FS.get]
 
+/-- **A path written again holds only the new records**: reading a result path returns what the last `write_pickle` to that
+path wrote, whatever was written there (or elsewhere) before. -/
+theorem rewrite_reads_last (d : Disk) (path : String) (a b : List Rec) :
+    Disk.read (Disk.write (Disk.write d path a) path b) path = some b := by
+  simp [Disk.write, Disk.read]
+
+/-- writing one path leaves every other result file alone -/
+theorem write_other_path (d : Disk) (p q : String) (rs : List Rec) (h : q ≠ p) :
+    Disk.read (Disk.write d p rs) q = Disk.read d q := by
+  have hpq : (p == q) = false := by simpa using fun e => h e.symm
+  unfold Disk.read Disk.write
+  simp only [List.find?_cons, hpq]
+  congr 1
+  rw [List.find?_filter]
+  congr 1
+  funext e
+  by_cases hq : e.1 = q
+  · simp [hq, h]
+  · simp [hq]
+
+/-- **Boundary distance**: a voxel that keeps exactly the requested distance from both faces of its axis is reported
+(the bound is inclusive), one voxel closer to either face is not. -/
+theorem kept_at_exact_distance (d n : Nat) (h : 2 * d < n) :
+    keptAt d n d = true ∧ keptAt d n (n - 1 - d) = true ∧ (0 < d → keptAt d n (d - 1) = false) ∧ keptAt d n (n - d) = false := by
+  refine ⟨?_, ?_, ?_, ?_⟩ <;> simp [keptAt] <;> omega
+
 /-- the container's quirk, as a witness: an ordinary tuple that starts with the marker string is read back as a memory map -/
 theorem fake_marker_current_quirk :
     loadAll (writeItems (fun _ => "x") 0 [] [.tup "np.memmap" "payload"]).1 ≠
@@ -81,6 +107,9 @@ theorem pipeline_best_is_planted {α : Type} [Field α] [LinearOrder α] [IsStri
   rw [planted_window_at_reference ms P0 k hl hk]
   exact hplant k hk
 
+example : Disk.read (Disk.write (Disk.write (Disk.write [] "out.pickle" [Rec.obj "first run"]) "other" [Rec.obj "x"]) "out.pickle" [Rec.obj "second run"])
+    "out.pickle" = some [Rec.obj "second run"] := by decide
+example : keptAt 3 20 3 = true ∧ keptAt 3 20 16 = true ∧ keptAt 3 20 2 = false ∧ keptAt 3 20 17 = false := by decide
 example : refPos [5, 4] [3, 7] = [5, 9] := by decide
 example : loadAll (writeItems (fun i => s!"f{i}") 0 [("a", 7)] [.obj "scores", .memmap [2, 3] "f4" "a" 7, .tup "meta" "x"]).1
     = [.obj "scores", .memmap (encShape [2, 3] "f4" "f1"), .tup "meta" "x"] := by decide
